@@ -300,6 +300,47 @@ def ob_incoming_always_admission(report):
                    'decision of admission_equiv_spec is the only place where an inbound connection is refused)', ['ConnectionManager::handle_incoming'], {'inline_depth': 2}, body)
 
 
+def ob_endpoint_accepts(report):
+    """the admission rule can only be applied to connections the endpoint accepts: the QUIC endpoint is always created with its server half, whatever the
+    configured limit (with a limit of 0 known High/Allowed peers still get in - so the listener must exist)"""
+    def body(ob):
+        ex = e2.executor('anemo', [], max_depth=3)
+        fn = find_method(ex.prog, 'Endpoint', 'new', file_re=r'anemo/src/endpoint\.rs')
+        res = ex.run(fn, [])
+        n = 0
+        for r in res:
+            if r.tag != 'return':
+                continue
+            mk = [e for e in r.events if e.kind == 'call' and re.search(r'quinn::(endpoint::)?Endpoint::(new|new_with_abstract_socket|server|client)$', str(e.name))]
+            okret = isinstance(r.ret, Agg) and r.ret.variant == 'Ok'
+            if not mk:
+                if okret:
+                    return ob.done([ex], 'inconclusive', 'Endpoint::new succeeds without a recognised quinn::Endpoint constructor', paths=len(res))
+                continue
+            e = mk[0]
+            last = str(e.name).rsplit('::', 1)[-1]
+            if last == 'server':
+                n += 1
+                continue
+            sc = e.args[1] if last != 'client' and len(e.args) > 1 else None
+            some = isinstance(sc, Agg) and sc.variant == 'Some'
+            if not some and isinstance(sc, (Sym,)) :
+                d = ex.discriminant(sc, 'isize')
+                ex.queries += 1
+                some = e2.solve(r.pc + [d != z3.BitVecVal(1, d.size())], want_model=False)[0] == 'unsat'
+            if not some:
+                o = ob.done([ex], 'violated', f'the QUIC endpoint can be created without a server configuration ({last}({vrepr(sc)[:40] if sc is not None else ""})): such a node accepts no inbound '
+                            'connection at all, so known High/Allowed peers are refused like everybody else', path_summary(r), key='endpoint-no-server', paths=len(res))
+                o.replay = write_replay(PROP, o.name, path_summary(r))
+                return o
+            n += 1
+        if not n:
+            return ob.done([ex], 'inconclusive', 'no path creates the quinn endpoint', paths=len(res))
+        ob.done([ex], 'held', '', {'paths': len(res), 'constructions': n}, paths=len(res))
+    return guarded(report, 'endpoint_always_has_server_half', 'Endpoint::new: on every path the quinn endpoint is created with Some(server config)', ['Endpoint::new', 'EndpointConfig::server_config'],
+                   {'inline_depth': 3, 'configuration': 'arbitrary'}, body)
+
+
 def check(report, tier, only=None):
     report.trusted += ['z3 5.1 (python API)', 'rustc 1.97-nightly MIR dump of the scratch copy of /repo',
                        'contract models: Future::poll of `Connecting` = symbolic Poll<Result<Connection>>; HashMap::{get,len}; RwLock::read returns the guarded value; tracing disabled']
@@ -315,7 +356,7 @@ def check(report, tier, only=None):
 
     def add_peer_wiring(rep):
         return _handler.ob_add_peer(rep, PROP)
-    obs = [ob_admission, ob_incoming_always_admission, C03.ob_connecting_result, add_peer_wiring, ob_dials_not_limited, ob_known_get, ob_known_insert, lambda rep: dial.ob_dial_task(rep, PROP)]
+    obs = [ob_admission, ob_incoming_always_admission, ob_endpoint_accepts, C03.ob_connecting_result, add_peer_wiring, ob_dials_not_limited, ob_known_get, ob_known_insert, lambda rep: dial.ob_dial_task(rep, PROP)]
     for f in obs:
         if only and not any(s in getattr(f, '__name__', 'dial') for s in only):
             continue
